@@ -44,7 +44,8 @@ def r_err(ctx, P, whole_crate=True):
                 ctx.violation(key, 'R-err', 'the Result of `%s` is discarded (%s) in %s — not propagated, converted, stored or inspected' % (fn.split('::')[-1], form, p),
                               function=p, site=site(b, i), missing='form=%s callee=%s; add `?`/map_err, or list the exact key in rules/reviewed/err_discards.txt with a reason' % (form, fn))
     ctx.floor(P + ':S09-1:floor:sites', 'Result-returning call sites examined by R-err', nsites, 3000)
-    stale = sorted(set(rev) - seen)
+    # entries that exist only under another feature configuration are tagged `[cfg=<name>]` and are not stale here
+    stale = sorted(k for k in set(rev) - seen if not (rev[k].startswith('[cfg=') and not rev[k].startswith('[cfg=%s]' % ctx.config)))
     ctx.check(P + ':S09-1:reviewed-table-fresh', 'R-err', 'every reviewed exception still matches a site (no stale suppression)', not stale, missing=stale)
     ctx.extra = dict(getattr(ctx, 'extra', {}), r_err_call_sites=nsites, r_err_functions=nfun, r_err_reviewed=sorted(seen & set(rev)))
 
